@@ -44,6 +44,9 @@ class LenHooks(Hooks):
                 return decide_with(interp, test, env, mod, consts=self.consts)
         return None
 
+    def setter(self, interp, obj, name, val, setter_fi, node):
+        return NotImplemented            # assignments go through the real setters (they are what is being checked)
+
 
 class View:
     """columns offset + stride*j (j >= 0), optional exclusive stop; ``rows`` set for a (n, k) reshape of a run of columns"""
@@ -331,19 +334,42 @@ def run(ctx):
             ctx.undecided('FLAG-2', 'accepted flag set', where(vs, pred), 'predicate form %s' % e)
     # ---- AGREE-1
     state_roundtrip(ctx, ci)
+    from ..staterules import conversion_roundtrip
+    from ..roundtrip import SuspectCtx
     td = ctx.fn(repo.func('source.source', 'Source.to_dict'))
     fd = ctx.fn(repo.func('source.source', 'Source.from_dict'))
-    wk = getstate_keys(td) or {}
-    rk = {}
-    for t, v, st in stores(fd.node):
-        if isinstance(t, ast.Attribute) and isinstance(v, ast.Subscript) and isinstance(const(v.slice), str):
-            rk[t.attr] = const(v.slice)
-    for k in ('name', 'x', 'y', 'valid', 'flux', 'error'):
-        ctx.expect(wk.get(k) == 'self.%s' % k and rk.get(k) == k, 'AGREE-1', 'dict key %r' % k, where(td), 'to_dict[%r] = self.%s ; from_dict reads it back into %s' % (k, k, k),
-                   'to_dict %s / from_dict %s' % (wk.get(k), rk.get(k)), 'dict-key')
-    fo = [a for a in rk]
-    ctx.expect(fo.index('valid') < fo.index('flux') and fo.index('valid') < fo.index('error') if all(k in fo for k in ('valid', 'flux', 'error')) else False,
-               'CFG-12', 'from_dict assigns valid first', where(fd), 'order %s' % fo, 'order %s' % fo, 'dict-order')
+    if conversion_roundtrip(ctx, ci, 'to_dict', 'from_dict', 'AGREE-1', 'dict key'):
+        # from_dict goes through the setters: a dictionary whose arrays have different lengths is refused (interpreted with the real setters)
+        from ..interp import ClassRef
+        bad = []
+        for a, b in ((5, 7), (7, 5), (5, 5)):
+            I = Interp(repo, LenHooks({count_atom('V'): a, count_atom('w'): b}))
+            d = {'name': 'S', 'x': 0., 'y': 0., 'valid': symarr('valid', ('w',), unit=num(1)), 'flux': symarr('val', ('V',), unit=num(1)), 'error': symarr('err', ('w',), unit=num(1))}
+            out = I.call(fd, [ClassRef(ci), d])
+            raised = isinstance(out, Unk) and 'always raises' in out.why
+            if isinstance(out, Unk) and not raised:
+                bad = None
+                break
+            if raised != (a != b):
+                bad.append('%d flags with %d fluxes is %s' % (b, a, 'refused' if raised else 'accepted'))
+        if bad is None:
+            ctx.undecided('CFG-12', 'from_dict refuses arrays of different lengths', where(fd), 'not modelled: %r' % (out,))
+        else:
+            ctx.expect(not bad, 'CFG-12', 'from_dict refuses arrays of different lengths', where(fd), 'goes through the length-checking setters', '; '.join(bad), 'dict-lengths')
+    else:
+        ctx0, ctx = ctx, SuspectCtx(ctx, 'the conversion was not decided by interpretation and the syntactic rule, which knows one spelling only, reports')
+        wk = getstate_keys(td) or {}
+        rk = {}
+        for t, v, st in stores(fd.node):
+            if isinstance(t, ast.Attribute) and isinstance(v, ast.Subscript) and isinstance(const(v.slice), str):
+                rk[t.attr] = const(v.slice)
+        for k in ('name', 'x', 'y', 'valid', 'flux', 'error'):
+            ctx.expect(wk.get(k) == 'self.%s' % k and rk.get(k) == k, 'AGREE-1', 'dict key %r' % k, where(td), 'to_dict[%r] = self.%s ; from_dict reads it back into %s' % (k, k, k),
+                       'to_dict %s / from_dict %s' % (wk.get(k), rk.get(k)), 'dict-key')
+        fo = [a for a in rk]
+        ctx.expect(fo.index('valid') < fo.index('flux') and fo.index('valid') < fo.index('error') if all(k in fo for k in ('valid', 'flux', 'error')) else False,
+                   'CFG-12', 'from_dict assigns valid first', where(fd), 'order %s' % fo, 'order %s' % fo, 'dict-order')
+        ctx = ctx0
 
 
 SO = 'sedfitter/source/source.py'
